@@ -100,10 +100,12 @@ var genStr = rapid.OneOf(
 
 // lengths at the 1->2 and 2->3 byte boundaries of the length varint
 var boundaryLen = rapid.Custom(func(t *rapid.T) int {
+	// a window around each boundary: the enclosing record's own length then
+	// crosses it for every overhead (tag width, inner length prefix) of 0..9 bytes
 	if rapid.IntRange(0, 60).Draw(t, "hugelen") == 0 {
-		return rapid.SampledFrom([]int{16383, 16384, 16385}).Draw(t, "len3")
+		return rapid.IntRange(16374, 16386).Draw(t, "len3")
 	}
-	return rapid.SampledFrom([]int{126, 127, 128, 129}).Draw(t, "len2")
+	return rapid.IntRange(117, 130).Draw(t, "len2")
 })
 
 var genBytes = rapid.OneOf(
